@@ -31,6 +31,7 @@ shape("ApprovalToken", request_hash="str", issuer="str", reason="str", confidenc
 
 construct("ATP_Store", "operon_ai.state.metabolism", {"budget": 1000, "silent": True})
 construct("CoherentFeedForwardLoop", "operon_ai.topology.loops", {"budget": "@new:ATP_Store", "silent": True})
+construct("ActionProtein", "operon_ai.core.types", {"action_type": "PERMIT", "payload": "", "confidence": 1.0})
 
 AGENTS = {"BioAgent.express": {"returns": "obj:ActionProtein", "raises": ("Exception",)},
           "self.on_block": {"raises": (), "returns": "any"}, "self.on_permit": {"raises": (), "returns": "any"}}
